@@ -18,10 +18,16 @@ RULE = ("2-4 jobs drawn from decoder / encoder calls (with attribute / strict fl
         "contain symbols never seen before in the process (fresh isotopes, so the first-sight write to the symbol cache "
         "happens inside the interleaving) and include aromatic inputs (kekulization, matching); a generated schedule of up to "
         "200 (thread, opcode-count) segments executed by a deterministic opcode-level scheduler (sys.settrace with "
-        "f_trace_opcodes inside selfies frames); plus a free-running stress sub-tier (8-16 threads, switch interval 1e-6 s) and a cold-start sub-tier (fresh interpreters whose first translation calls are made by 4-12 threads at once, so lazily built tables are filled inside the race). "
-        "Oracle: every job's result (value or exception class) equals the result of the same call run alone before and after "
-        "the concurrent phase (fresh-isotope jobs: alone on an equally fresh isotope, renamed). non-trivial = >= 5 switches "
-        "while >= 2 jobs are mid-call inside selfies frames; distinct = distinct (jobs, schedule)")
+        "f_trace_opcodes inside selfies frames; a thread that waits for something a paused thread holds is set aside and the "
+        "others run on); plus subprocess sub-tiers with free-running threads (switch interval 1e-6 s): stress (8-16 threads, "
+        "caches warm, the same never-seen symbols met by all threads at the same call number, towers of 700-1800 nested "
+        "branches next to ordinary calls) and cold start (fresh interpreters whose first translation calls are made by 4-8 "
+        "threads at once, so lazily built tables are filled inside the race; ever-new bracket atoms; ring sizes up to 560 "
+        "re-checked against the documented code after the race). Oracle: every job's result (value or exception class) equals "
+        "the result of the same call run alone before and after the concurrent phase (fresh-isotope jobs: alone on an equally "
+        "fresh isotope, renamed) and in another process; calls that return within milliseconds alone must not wait for ever "
+        "(no opcode executed in any unfinished thread for 30 s / no call completed by any thread for 45 s). non-trivial = "
+        ">= 5 switches while >= 2 jobs are mid-call inside selfies frames; distinct = distinct (jobs, schedule)")
 ASSUMPTIONS = ["switches are forced only at opcode boundaries of frames under /repo/selfies; C-level internals of lru_cache, dict, "
                "re are assumed atomic under the GIL (CPython 3.12 GIL build)",
                "the constraint table is fixed (default) during a case"]
